@@ -119,6 +119,7 @@ def check(ctx, rep):
     rep.rule("R16a", "VFS interface: every effectful VFS_Real method is overridden in each VFS subclass; overrides and the index builder are file-system free", floor=7)
     rep.rule("R16b", "real-file-only handlers reject non-real VFS objects", floor=3)
     rep.rule("R16c", "archive symlinks resolved in the in-memory index only", floor=1)
+    rep.rule("R16e", "a link member whose target climbs above the archive root dangles (it is never resolved to a member)", floor=4)
     rep.rule("R16d", "inner handler = HandlerMultiplexer.getHandler(..., vfs=<archive VFS>) on the same selector", floor=1)
     rep.assume("zipfile.ZipFile methods act on the already opened archive only")
     vfs = ctx.cls("handlers.base.VFS_Real")
@@ -158,6 +159,55 @@ def check(ctx, rep):
             rep.add("R16c", f"{S.qualname}.{name} is index-only", not bad, ctx.where(f),
                     "; ".join(f"{s.effect} via {norm(s.call)[:50]}" for s in bad[:3]), key=f"R16c|{S.qualname}.{name}")
     vfs_gate_obligations(ctx, rep, "R16b", eff)
+    # ------------------------------------------------------------------ R16e
+    from ..paths import State
+
+    for S in subs:
+        pc = prog.resolve_method(S, "populate_cache")
+        if pc is None:
+            continue
+        loops = [n for n in ast.walk(pc.node) if isinstance(n, ast.For) and isinstance(n.target, ast.Name)
+                 and any(isinstance(x, ast.Call) and isinstance(x.func, ast.Attribute) and x.func.attr == "_isentryincache" for x in ast.walk(n))]
+        if not loops:
+            rep.fail("R16e", f"{pc.qualname}: link resolution loop", ctx.where(pc), "link resolution loop not found", key=f"R16e|{S.qualname}|loop")
+            continue
+        loop = loops[0]
+        var = loop.target.id
+        # (member path of the link, link text) -> does the target leave the archive?
+        cases = [("docs/up.txt", "../../real.txt", True), ("docs/deep/far", "../../../docs", True), ("up", "../x", True),
+                 ("a/b", "../../..", True), ("docs/ok.txt", "../real.txt", False), ("docs/deep/l", "../../real.txt", False),
+                 ("l", "real.txt", False), ("docs/l", "sub/x", False)]
+        for pathname, dest, climbs in cases:
+            facts = {f"{var}['dest']": Const(dest), f"{var}['pathname']": Const(pathname), f"{var}['dest'][0]": Const(dest[0])}
+            w = Walker(prog, ctx.resolver, assumptions=facts, sticky=set(facts))
+            w.frame = (pc, S)
+            w._budget = 200000
+            looked = set()
+            try:
+                outs = w.exec_block(loop.body, State(facts=dict(facts)))
+                for kind, val, st in outs:
+                    for e in st.events:
+                        if e.kind == "call" and isinstance(e.node.func, ast.Attribute) and e.node.func.attr in ("_isentryincache", "_getcacheinode", "_getcacheentry"):
+                            a = (e.extra or {}).get("args") or []
+                            looked.add(a[0].value if a and a[0].kind == "const" else None)
+            except Exception:
+                looked = {None}
+            problems = []
+            if None in looked:
+                problems.append("the member name looked up for this link is not determined by code the analysis understands")
+            elif climbs:
+                bad = [k for k in looked if not (k.startswith("..") or k in ("", "."))]
+                if bad:
+                    problems.append(f"link {pathname!r} -> {dest!r} leaves the archive but is resolved to member {bad[0]!r} "
+                                    "(on the extracted tree the same link points outside the tree and is not found)")
+            else:
+                import posixpath
+
+                want = posixpath.normpath(posixpath.join(posixpath.dirname(pathname), dest))
+                if want not in looked:
+                    problems.append(f"link {pathname!r} -> {dest!r} should resolve to member {want!r}, the code looks up {sorted(looked)}")
+            rep.add("R16e", f"{S.qualname}: link {pathname!r} -> {dest!r}", not problems, ctx.where(pc, loop), "; ".join(problems),
+                    key=f"R16e|{S.qualname}|{'climb' if climbs else 'inside'}|{pathname}")
     # R16d
     zh = ctx.cls("handlers.ZIP.ZIPHandler")
     gh = ctx.func("handlers.HandlerMultiplexer.getHandler")
